@@ -3,11 +3,13 @@ import OFV.Driver.OpsC16
 import OFV.Driver.OpsC15
 import OFV.Driver.OpsC19
 import OFV.Driver.OpsOF
+import OFV.Driver.OpsStream
 namespace OFV.Driver
 open OFV
 
 def families : List (String × List (String × Handler)) :=
-  [("C16", C16.handlers), ("C15", C15.handlers), ("C18", C18.handlers), ("C19", C19.handlers), ("OF", OF.handlers)]
+  [("C16", C16.handlers), ("C15", C15.handlers), ("C18", C18.handlers), ("C19", C19.handlers), ("OF", OF.handlers),
+   ("C10", Stream.handlersC10), ("C11", Stream.handlersC11), ("C14", Stream.handlersC14)]
 
 structure Stats where
   lines : Nat := 0
